@@ -35,6 +35,13 @@ def Model.stateNames (m : Model) : List Name := m.states.map (·.1)
 def Model.paramNames (m : Model) : List Name := m.params.map (·.1)
 def Model.assignNames (m : Model) : List Name := m.assigns.map (·.1)
 
+/-- insertion into a name-sorted list (`sorted(..., key=name)`; stable) -/
+def insertSorted {β} (key : β → Name) (x : β) : List β → List β
+  | [] => [x]
+  | y :: rest => if key x < key y then x :: y :: rest else y :: insertSorted key x rest
+
+def sortByName {β} (key : β → Name) (l : List β) : List β := l.foldl (fun acc x => insertSorted key x acc) []
+
 /-- Array layout of a generated module: slot `i` of each array holds the `i`-th name. -/
 structure Layout where
   state : List Name
